@@ -212,6 +212,9 @@ pub fn one_program<F>(
     writeln!(implo, "fcheck ok {fused}").unwrap();
     writeln!(cases, "lcheck").unwrap();
     writeln!(implo, "lcheck ok").unwrap();
+    // the model's value-free shape run; the check cross-examines the answer with the real runs below
+    writeln!(cases, "shape").unwrap();
+    writeln!(implo, "shape ?").unwrap();
 
     // input vectors: the base (satisfying by construction unless a zero divisor was allowed),
     // then single-input perturbations
